@@ -107,6 +107,12 @@ class BuildError(Exception):
 def run_py(scratch, args, timeout=600, extra_env=None, cwd=None, input=None):
     """Run a harness python process against the scratch copy."""
     env = scratch.env(**(extra_env or {}))
+    covdir = os.environ.get("VERIF_COVERAGE")
+    if covdir and args and args[0] == "-m":
+        # development aid (tools/coverage_report.py): which lines of the package do the harness processes execute?
+        os.makedirs(covdir, exist_ok=True)
+        args = ["-m", "coverage", "run", "--parallel-mode", "--data-file", os.path.join(covdir, ".coverage"),
+                "--source", os.path.join(scratch.repo, "jellyfysh")] + list(args)
     # own session: on a timeout (e.g. a dead-locked multi-process run) the whole process group is killed
     proc = subprocess.Popen([PY] + list(args), env=env, cwd=cwd or scratch.dir, stdout=subprocess.PIPE,
                             stderr=subprocess.PIPE, stdin=subprocess.PIPE if input is not None else None, text=True,
